@@ -134,6 +134,15 @@ func (w *iw) feedBurst(chunks [][]byte, stallMs int) {
 	}
 }
 
+// runTo lets the simulation run until g has finished.  The clock is free to
+// move as far as g itself needs (padding delays in the strings Suspend and
+// Resume write), but not beyond.
+func (w *iw) runTo(g *simrt.G) {
+	if st := w.S.RunUntil(func() bool { return g.Done() }, 0); st == simrt.Budget {
+		w.stall = true
+	}
+}
+
 // settle runs to quiescence, letting timers expire.
 func (w *iw) settle() {
 	if st := w.S.Run(); st == simrt.Budget {
